@@ -31,7 +31,7 @@ ID = "C08"
 LEVEL = "exploration"
 VERSION = 1
 RULE = (
-    "one case = 1..4 clients x (corpus project, configuration variant: plain / programs / budget+stop / coverage+capacity overwrite / y-factors+dt / parameter scenario) x "
+    "one case = 1..4 clients x (corpus project, configuration variant: plain / programs / budget+stop / coverage+capacity overwrite / y-factors+dt / parameter scenario / saved initial state reused in a recalibrated parameter set) x "
     "operation template (repeat run, build->process, deepcopy / pickle / sc.dcp then process copy and/or original, Result save/load, Project save/load, Scenario.run), interleaved by the tape at "
     "operation and integration-stage granularity with seeded disturbances (RNG reseed/advance, logger level, np.seterr, gc, unrelated sampled run); distinct = distinct (client configs, templates, baton schedule) hashes; "
     "non-trivial = at least one context switch happened inside an integration, or a copied model was processed"
@@ -43,7 +43,7 @@ ASSUMPTIONS = [
 ]
 COMPONENTS = {"real": ["atomica Model / Population / Project.run_sim / Result / Scenario / Project.save/load", "pickle, copy.deepcopy, sciris dcp/saveobj/loadobj"], "stub": ["scheduler only: real threads parked/released one at a time (atomsim.baton)"]}
 
-VARIANTS = ["plain", "progs", "budget", "coverage", "yfactors_dt", "parscen"]
+VARIANTS = ["plain", "progs", "budget", "coverage", "yfactors_dt", "parscen", "saved_init"]
 PROJECTS = ["udt", "usdt", "tb_simple", "udt_dyn", "hiv", "hypertension", "dt", "service", "timed_test", "uncertainty", "tb_simple_dyn", "hiv_dyn", "hypertension_dyn", "diabetes", "cervicalcancer", "timed_transfer", "timed_transfer_2", "timed_eligibility", "timed_indirect", "timed_indirect2", "derivative", "par_min_max", "no_compartment", "tb", "timed_tb", "legacy_scen", "legacy_nores"]
 HEAVY = {"tb", "timed_tb", "legacy_scen", "legacy_nores"}
 TEMPLATES = [
@@ -78,7 +78,7 @@ def budget(tier):
 def variants_for(entry):
     if entry.meta["has_progset"]:
         return list(VARIANTS)
-    return ["plain", "yfactors_dt", "parscen"]
+    return ["plain", "yfactors_dt", "parscen", "saved_init"]
 
 
 def make_config(at, P, variant):
@@ -140,6 +140,26 @@ def make_config(at, P, variant):
             v0 = 0.05  # function parameter without databook values
         scen = at.ParameterScenario(name="scen", scenario_values={target: {pop: {"t": [start + 2, start + 4], "y": [v0, 0.8 * v0]}}})
         parset = scen.get_parset(parset, P)
+    elif variant == "saved_init":
+        # restart from a saved state: the state is saved from a run of a donor calibration and reused in another
+        # parameter set whose initialization y-factors were recalibrated afterwards (the library then only warns)
+        donor = parset.copy("donor")
+        r0 = P.run_sim(donor, store_results=False)
+        donor.set_initialization(r0)
+        import copy as _copy
+
+        parset = parset.copy("restarted")
+        parset.initialization = _copy.deepcopy(donor.initialization)
+        k = 0
+        for _, spec in list(P.framework.comps.iterrows()) + list(P.framework.characs.iterrows()):
+            if spec.name in parset.pars and spec.get("setup weight", 0) and spec["databook page"] is not None:
+                par = parset.pars[spec.name]
+                if k % 2 == 0:
+                    par.meta_y_factor = 1.25
+                else:
+                    for pop in par.y_factor:
+                        par.y_factor[pop] = 0.8
+                k += 1
     return parset, progset, instr, scen
 
 
@@ -243,7 +263,7 @@ def run(ch, idx, tier):
             parset, progset, instr = _sc.dcp(parset), _sc.dcp(progset), _sc.dcp(instr)
         if variant != "parscen":
             tpl = [op for op in tpl if op != "scenario_run"] or ["run_sim"]
-        if variant in ("yfactors_dt", "parscen"):
+        if variant in ("yfactors_dt", "parscen", "saved_init"):
             tpl = [op if op != "saveload_project_run" else "run_sim" for op in tpl]
         inputs = {"parset": parset, "progset": progset, "instructions": instr, "framework": P.framework, "data": P.data, "settings": P.settings}
         if variant == "parscen":
